@@ -346,6 +346,15 @@ def run_history(init_state, acts, states, rep, own, label):
             try:
                 obs = w.do(tuple(act))
             except Exception as e:  # noqa: BLE001
+                if act[0] in ("Trust", "Revoke", "Clear", "ImportMerge", "ImportUpdate", "ImportReplace", "ContextCycle"):
+                    # a trust-store operation the specification performs unconditionally failed on the real store
+                    desc = "history %s (presents=%s tofu=%s): the store operation %s raised %r" % (
+                        [list(a) for a in acts[:k + 1]], plain(init_state["presents"]), init_state["tofuOn"], list(act), e)
+                    if "Isolation" in own:
+                        rep.violation({"formula": "Isolation", "action": act[0], "raised": True}, "store operation failed: " + desc, None)
+                    else:
+                        rep.drifted("store operation failed: " + desc)
+                    break
                 raise tlc.TLCError("driver failure on %s: %r" % (act, e))
             n += 1
             mismatch, bad, detail = compare(obs, states[k], own)
